@@ -21,6 +21,12 @@ THEOREMS = [
     "C20_final_state_is_spec_of_serial_order",
     "C20_no_write_inside_open_edit",
     "C20_unlocked_set_state_loses_update",
+    "C20_source_shape_scoped_lock",
+    "C20_serialisable_under_cancellation_general",
+    "C20_aborted_block_effect",
+    "C20_serialisable_under_cancellation",
+    "C20_no_write_inside_open_edit_with_cancel",
+    "C20_cancelled_waiter_releasing_lock_loses_update",
 ]
 EXPLANATION = (
     "Lean transition system over the shared state-store model (WfModel/StateStore.lean, section C20): any number of tasks, each "
@@ -82,6 +88,8 @@ class ConcRun:
         self.inbody = [False] * n
         self.chunk = [0] * n
         self.errors: list[str | None] = [None] * n
+        self.creq = [False] * n                    # Task.cancel() has been called on the task
+        self.ended: list[str | None] = [None] * n  # "A": CancelledError left an open edit body, "X": elsewhere
         self.log: list[int] = []
         self.snaps: list[tuple[Any, dict, int]] = []
         self.tasks = [self.loop.create_task(self._task(i, op)) for i, op in enumerate(self.tasks_spec)]
@@ -111,6 +119,10 @@ class ConcRun:
                         self.chunk[i] = j + 1
             else:
                 raise RuntimeError(f"unknown op {op!r}")
+        except asyncio.CancelledError:
+            # the store's own `async with` / context manager exits have run by now
+            self.ended[i] = "A" if self.inbody[i] else "X"
+            raise
         except Exception as e:  # noqa: BLE001
             self.errors[i] = type(e).__name__
         finally:
@@ -119,13 +131,33 @@ class ConcRun:
     def enabled(self) -> list[int]:
         return [i for i, t in enumerate(self.tasks) if not t.done() and self.loop.has_ready(t)]
 
+    def can_cancel(self, i: int) -> bool:
+        return not self.tasks[i].done() and not self.creq[i]
+
+    def cancel(self, i: int) -> None:
+        """`Task.cancel()` from outside (step timeout, run cancellation): a request only; the task sees the
+        CancelledError in its next section"""
+        self.tasks[i].cancel()
+        self.creq[i] = True
+        self.steps += 1
+
+    def status(self, i: int) -> str:
+        """D completed (also: raised), X cancelled before it touched the store, A cancelled inside its edit body,
+        - unfinished"""
+        t = self.tasks[i]
+        if not t.done():
+            return "-"
+        if t.cancelled():
+            return "A" if self.ended[i] == "A" else "X"
+        return "D"
+
     def all_done(self) -> bool:
         return all(t.done() for t in self.tasks)
 
     def step(self, i: int) -> None:
         self.loop.run_one(self.tasks[i])
         self.steps += 1
-        if self.tasks[i].done() and i not in self.log:
+        if self.status(i) in ("D", "A") and i not in self.log:
             self.log.append(i)
 
     # ---- observation
@@ -165,14 +197,17 @@ class ConcRun:
             holder = str(inb[0]) if len(inb) == 1 else "?"
         pcs = []
         for i, t in enumerate(self.tasks):
+            c = "c" if self.creq[i] else ""
             if t.done():
-                pcs.append("D")
+                pcs.append(self.status(i))
             elif not self.started[i]:
-                pcs.append("I")
+                pcs.append("I" + c)
             elif self.inbody[i]:
-                pcs.append(f"B{self.chunk[i]}")
+                pcs.append(f"B{self.chunk[i]}" + c)
             elif any(getattr(t, "_fut_waiter", None) is f for f in waiters):
-                pcs.append("W")
+                if c:  # future cancelled, or already resolved (lock handed over) and the task marked instead
+                    c = "c" if t._fut_waiter.cancelled() else ("m" if getattr(t, "_must_cancel", False) else "?")
+                pcs.append("W" + c)
             else:
                 pcs.append("?")
         return (f"ok {self.store_canon()} holder={holder} queue={','.join(q)} pcs={','.join(pcs)} "
@@ -216,19 +251,39 @@ def driver_prefix(S: Any, backend: str, sc: dict) -> list[str]:
     return [f"cinit|{backend}|{sc['kind']}|{S.schema_enc()}|{ini}"] + [S.cop_line(op) for op in sc["tasks"]]
 
 
-def serial_outcomes(S: Any, sqlenv: Any, backend: str, sc: dict) -> dict[str, list[int]]:
-    """final state of every serial order, on the real store"""
+def serial_outcomes(S: Any, sqlenv: Any, backend: str, sc: dict, eff: dict[int, list] | None = None) -> dict[str, list[int]]:
+    """final state of every serial order, on the real store; `eff`: the tasks that count and the operation each
+    counts with (default: all tasks, their own operation)"""
     res: dict[str, list[int]] = {}
-    n = len(sc["tasks"])
-    for order in itertools.permutations(range(n)):
+    if eff is None:
+        eff = dict(enumerate(sc["tasks"]))
+    for order in itertools.permutations(sorted(eff)):
         store = S.make_mem(sc["kind"]) if backend == "mem" else sqlenv.store(sc["kind"])
         if sc.get("init") is not None:
             S.drive(store.set_state(S.make_instance(sc["kind"], "same", sc["init"])))
         real = S.Real(store, sc["kind"])
         for t in order:
-            real.do(S.cop_to_op(sc["tasks"][t]))
+            real.do(S.cop_to_op(eff[t]))
         res.setdefault(safe_final(S, store), list(order))
     return res
+
+
+def act_line(a: int) -> str:
+    """schedule entry -> driver op: t >= 0 runs the next section of task t, -(t+1) is Task.cancel() on task t"""
+    return f"crun|{a}" if a >= 0 else f"ccancel|{-a - 1}"
+
+
+def line_act(line: str) -> int | None:
+    f = line.split("|")
+    if f[0] == "crun":
+        return int(f[1])
+    if f[0] == "ccancel":
+        return -int(f[1]) - 1
+    return None
+
+
+def fmt_sched(sched: list[int]) -> str:
+    return "[" + ", ".join(str(a) if a >= 0 else f"cancel({-a - 1})" for a in sched) + "]"
 
 
 def safe_final(S: Any, store: Any) -> str:
@@ -258,8 +313,11 @@ class Explorer:
         self.impl: list[str] = []        # what the implementation showed, aligned with self.lines
         self.finals: dict[str, list[int]] = {}
         self.viol: list[Violation] = []
-        self.serial: dict[str, list[int]] | None = None
+        self.serial: dict[str, dict[str, list[int]]] = {}  # per set of operations that count
         self.n_sched = 0
+        self.sampled = False  # schedules drawn at random on top of the depth-first ones
+        n = len(sc["tasks"])
+        self.cancellable = [t for t in sc.get("cancel") or [] if isinstance(t, int) and 0 <= t < n]
         self.raises = scenario_raises(sc)
 
     def _flag(self, sig: str, what: str, schedule: list[int]) -> None:
@@ -270,8 +328,23 @@ class Explorer:
         case["backend"] = self.backend
         self.viol.append(Violation(sig, what, case))
 
+    def effective(self, run: ConcRun) -> dict[int, list]:
+        """which tasks count in the serial order, and with what: completed tasks with their operation; a task
+        cancelled inside its open edit body with the chunks it had finished where the body works on the store's own
+        object (in-memory: `state = self._state`), with nothing where it works on a copy that is never saved (SQLite);
+        tasks cancelled before they got the lock with nothing"""
+        eff: dict[int, list] = {}
+        for i, op in enumerate(self.sc["tasks"]):
+            st = run.status(i)
+            if st == "D":
+                eff[i] = op
+            elif st == "A" and self.backend == "mem":
+                eff[i] = ["edit", [list(ch) for ch in (op[1] or [[]])[:run.chunk[i]]]]
+        return eff
+
     def run_schedule(self, chooser: Any) -> list[int]:
-        """one complete run; `chooser(depth, enabled) -> task` picks the next action"""
+        """one complete run; `chooser(depth, actions) -> action` picks the next action (t: next section of task t,
+        -(t+1): cancel task t)"""
         S = self.S
         run = ConcRun(S, self.sqlenv, self.backend, self.sc)
         pre = driver_prefix(S, self.backend, self.sc)
@@ -284,35 +357,51 @@ class Explorer:
                 en = run.enabled()
                 if not en:
                     break
-                t = chooser(depth, en)
+                acts = en + [-(t + 1) for t in self.cancellable if run.can_cancel(t)]
+                a = chooser(depth, acts)
                 if self.snapshots and depth > 0:
                     run.take_snapshot()
-                run.step(t)
-                sched.append(t)
-                self.lines.append(f"crun|{t}")
-                self.impl.append(run.observe())
+                if a >= 0:
+                    run.step(a)
+                else:
+                    run.cancel(-a - 1)
+                sched.append(a)
+                self.lines.append(act_line(a))
+                obs = run.observe()
+                self.impl.append(obs)
+                if a < 0:
+                    pc = obs.split(" pcs=")[1].split(" ")[0].split(",")[-a - 1]
+                    self.out.count("cancel_at:" + ("B" if pc.startswith("B") else "I" if pc.startswith("I") else pc))
                 depth += 1
                 if depth > 200:
                     break
             self.n_sched += 1
             self.out.evaluations += len(sched)
             cls = "dict" if self.sc["kind"] == "dict" else "typed"
+            after = "_after_cancel" if any(a < 0 for a in sched) else ""
             if not run.all_done():
-                self._flag(f"C20/stuck:{self.backend}:{op_kinds(self.sc)}",
+                self._flag(f"C20/stuck{after}:{self.backend}:{op_kinds(self.sc)}",
                            f"no task can run but tasks {[i for i, t in enumerate(run.tasks) if not t.done()]} are unfinished "
-                           f"after schedule {sched}", sched)
+                           f"after schedule {fmt_sched(sched)} (tasks {self.sc['tasks']!r})", sched)
                 return sched
             final = run.final_canon()
             self.finals.setdefault(final, sched)
-            if self.serial is None:
-                self.serial = serial_outcomes(S, self.sqlenv, self.backend, self.sc)
-            if final not in self.serial:
-                self._flag(f"C20/no_serial_order:{self.backend}:{op_kinds(self.sc)}",
-                           f"{self.backend} store, tasks {self.sc['tasks']!r}, init {self.sc.get('init')!r}: schedule {sched} ends in "
-                           f"{final!r}; the serial orders give {sorted(self.serial)!r}", sched)
+            eff = self.effective(run)
+            key = json.dumps(sorted(eff.items()), sort_keys=True, default=str)
+            if key not in self.serial:
+                self.serial[key] = serial_outcomes(S, self.sqlenv, self.backend, self.sc, eff)
+            serial = self.serial[key]
+            if after:
+                self.out.count("cancelled_runs:completed=%d/%d" % (sum(run.status(i) == "D" for i in range(len(run.tasks))), len(run.tasks)))
+            if final not in serial:
+                counted = {i: (run.status(i), eff.get(i)) for i in range(len(run.tasks))}
+                self._flag(f"C20/no_serial_order{after}:{self.backend}:{op_kinds(self.sc)}",
+                           f"{self.backend} store, tasks {self.sc['tasks']!r}, init {self.sc.get('init')!r}: schedule "
+                           f"{fmt_sched(sched)} ends in {final!r}; the serial orders of the operations that took effect "
+                           f"{counted!r} give {sorted(serial)!r}", sched)
             dmg = run.snapshot_damage()
             if dmg is not None:
-                self._flag(f"C20/snapshot_changed:{self.backend}:{cls}", f"{dmg} (schedule {sched}, tasks {self.sc['tasks']!r})", sched)
+                self._flag(f"C20/snapshot_changed:{self.backend}:{cls}", f"{dmg} (schedule {fmt_sched(sched)}, tasks {self.sc['tasks']!r})", sched)
         finally:
             run.close()
         return sched
@@ -351,6 +440,21 @@ class Explorer:
     def random(self, rng: Any, n: int) -> None:
         for _ in range(n):
             self.run_schedule(lambda depth, en: rng.choice(en))
+
+    def random_cancels(self, rng: Any, n: int) -> None:
+        """random schedules in which every cancellation falls at a uniformly chosen action index (a cancel
+        action is offered at every point, so a uniform choice among the offered actions would fire it early)"""
+        self.sampled = True
+        for _ in range(n):
+            when = {t: rng.randrange(0, 7) for t in self.cancellable}
+
+            def chooser(depth: int, acts: list[int]) -> int:
+                due = [a for a in acts if a < 0 and when[-a - 1] <= depth]
+                if due:
+                    return due[0]
+                return rng.choice([a for a in acts if a >= 0])
+
+            self.run_schedule(chooser)
 
 
 # --------------------------------------------------------------------------
@@ -400,7 +504,7 @@ def gen_task(S: Any, rng: Any, kind: str) -> list:
     return ["clear"]
 
 
-def gen_scenario(S: Any, rng: Any, n_tasks: int) -> dict:
+def gen_scenario(S: Any, rng: Any, n_tasks: int, cancels: bool = False) -> dict:
     kind = rng.choice(S.KINDS)
     init = None if rng.random() < 0.25 else S.gen_state_data(rng, kind)
     if kind == "dict" and init is not None:
@@ -408,7 +512,12 @@ def gen_scenario(S: Any, rng: Any, n_tasks: int) -> dict:
     tasks = [gen_task(S, rng, kind) for _ in range(n_tasks)]
     if not any(t[0] == "edit" and len(t[1]) > 1 for t in tasks):
         tasks[0] = ["edit", [[["I", "x" if kind == "dict" else "cnt", 1]], [["I", "x" if kind == "dict" else "a", 2]]]]
-    return {"kind": kind, "init": init, "tasks": tasks}
+    sc = {"kind": kind, "init": init, "tasks": tasks}
+    if cancels:
+        # 1-2 tasks that the scheduler may cancel at any point (not started / queued on the lock / inside the body)
+        k = 1 if n_tasks < 3 or rng.random() < 0.6 else 2
+        sc["cancel"] = sorted(rng.sample(range(n_tasks), k))
+    return sc
 
 
 # --------------------------------------------------------------------------
@@ -448,6 +557,13 @@ def run(env: Env) -> Outcome:
             scenarios.append(("gen3", gen_scenario(S, env.rng, 3), "exhaustive"))
         for _ in range(nbig):
             scenarios.append(("gen45", gen_scenario(S, env.rng, env.rng.choice([4, 5])), "random"))
+        # the same with cancellations: 1-2 designated tasks may be cancelled at every point of every interleaving
+        for _ in range(env.budget(3, 30)):
+            scenarios.append(("gen2c", gen_scenario(S, env.rng, 2, cancels=True), "exhaustive"))
+        for _ in range(env.budget(4, 40)):
+            scenarios.append(("gen3c", gen_scenario(S, env.rng, 3, cancels=True), "exhaustive"))
+        for _ in range(env.budget(1, 15)):
+            scenarios.append(("gen45c", gen_scenario(S, env.rng, env.rng.choice([4, 5]), cancels=True), "random"))
         cap = 60 if env.tier == "quick" else 400
 
         for tag, sc, mode in scenarios:
@@ -458,8 +574,12 @@ def run(env: Env) -> Outcome:
                 if mode == "fixed":
                     ex.fixed(sc["schedule"])
                 elif mode == "exhaustive":
-                    complete = ex.exhaustive(cap)
+                    complete = ex.exhaustive(cap if not ex.cancellable else 2 * cap)
                     out.count("exhaustive_complete" if complete else "exhaustive_capped")
+                    if not complete and ex.cancellable:  # the depth-first order reaches only late cancellations before the cap
+                        ex.random_cancels(env.rng, 30 if env.tier == "quick" else 80)
+                elif ex.cancellable:
+                    ex.random_cancels(env.rng, 12 if env.tier == "quick" else 40)
                 else:
                     ex.random(env.rng, 12 if env.tier == "quick" else 40)
                 per_backend[be] = ex
@@ -471,9 +591,15 @@ def run(env: Env) -> Outcome:
             out.count("kind:" + sc["kind"])
             for op in sc["tasks"]:
                 out.count("task:" + op[0])
+            for t in (sc.get("cancel") or []) if mode != "fixed" else []:
+                out.count("cancellable:" + sc["tasks"][t][0])
             out.nontrivial((sc["kind"], sc["tasks"], sc.get("init")))
-            if mode == "exhaustive" and len(per_backend) == 2 and not per_backend["mem"].raises \
-                    and not any(ex.viol for ex in per_backend.values()):
+            # (a multi-chunk edit cancelled inside its body leaves its finished chunks in memory, nothing in SQLite)
+            abortable = any(sc["tasks"][t][0] == "edit" and len(sc["tasks"][t][1]) > 1 for t in per_backend["mem"].cancellable) \
+                if "mem" in per_backend else False
+            if mode == "exhaustive" and len(per_backend) == 2 and not per_backend["mem"].raises and not abortable \
+                    and not any(ex.viol for ex in per_backend.values()) \
+                    and not any(ex.sampled for ex in per_backend.values()):
                 a, b = per_backend["mem"].finals, per_backend["sql"].finals
                 if set(a) != set(b):
                     only = sorted(set(a) ^ set(b))[0]
@@ -500,7 +626,7 @@ def run(env: Env) -> Outcome:
         model_out = Driver(MODEL).run(lines) if lines else []
         seen_div = 0
         for i, (mo, io) in enumerate(zip(model_out, impl)):
-            if lines[i].startswith("crun|"):
+            if line_act(lines[i]) is not None:
                 out.disagreements_checked += 1
             if mo != io:
                 tag, ex = explorers[owner[i]]
@@ -508,7 +634,7 @@ def run(env: Env) -> Outcome:
                 j = i
                 while j > 0 and not lines[j].startswith("cinit|"):
                     j -= 1
-                sched = [int(l.split("|")[1]) for l in lines[j:i + 1] if l.startswith("crun|")]
+                sched = [a for a in map(line_act, lines[j:i + 1]) if a is not None]
                 case = dict(ex.sc)
                 case["schedule"], case["backend"] = sched, ex.backend
                 out.divergences.append(Divergence(f"{MODEL}/sys-{ex.backend}", len(sched) - 1, lines[i], mo, io,
